@@ -3,7 +3,7 @@
 From Coq Require Import List String Ascii Bool ZArith.
 From Helm Require Import Chart.Paths Chart.PathsProofs Chart.Archive Chart.ArchiveProofs
   Chart.Lock Chart.LockProofs Chart.PathFns Chart.PathFnsProofs Chart.FsTree Chart.FsTreeProofs
-  Chart.FsLockProofs Chart.FsExplicit Gen.Limits Gen.SecureJoinLib.
+  Chart.FsLockProofs Chart.FsExplicit Chart.CleanBytesProofs Gen.Limits Gen.SecureJoinLib.
 Import ListNotations.
 Local Open Scope string_scope.
 Local Open Scope Z_scope.
@@ -223,14 +223,12 @@ Theorem C16_clean_fixed : forall p : string, is_clean_path p = true -> path_clea
 Proof. exact is_clean_fixed. Qed.
 Print Assumptions C16_clean_fixed.
 
-(* the byte-by-byte transcription of Go's path.Clean (the lazybuf loop: clean_bytes) against the
-   component-level model the theorems are about.  Partial: all 9841 strings of at most 8 bytes
-   over {/, ., a}, by computation; every other string only through the correspondence run, which
-   holds both against the real path.Clean *)
-Theorem C16_clean_bytes_agree_partial :
-  forall s : string, In s (strings_upto ["/"%char; "."%char; "a"%char] 8) -> clean_bytes s = path_clean s.
-Proof. exact clean_bytes_agree_small. Qed.
-Print Assumptions C16_clean_bytes_agree_partial.
+(* the byte-by-byte transcription of Go's path.Clean (clean_bytes: the lazybuf loop with r, w and
+   dotdot, backing up over the last element byte by byte) computes, for EVERY byte string, what
+   the component-level model the theorems are about computes *)
+Theorem C16_clean_bytes_agree : forall s : string, clean_bytes s = path_clean s.
+Proof. exact clean_bytes_path_clean. Qed.
+Print Assumptions C16_clean_bytes_agree.
 
 (* every name LoadArchiveFiles exposes, over the concrete clean: a fixed point of path.Clean,
    relative, not ".", not starting with ".." *)
